@@ -3,11 +3,10 @@
 // One case = one generated image (or dynamic / parametric container, or truncation sweep) that is written with the
 // Interfile / Multi output file formats and read back with stir::read_from_file.  Everything is compared against the
 // in-memory original:
-//   * voxel physical positions  (band: 6 significant digits of the header text + float32 arithmetic, computed)
-//   * voxel values: bit-exact for FLOAT output; for scaled integer output
-//       (i)  stored integer vs value/scale-used-by-the-writer      (rounding step alone)
-//       (ii) value read back vs original                           (includes the 6-digit scale factor of the header)
-//     unsigned output: negatives -> 0 (documented truncation); order preserved; quotient inside the type's range
+//   * voxel physical positions  (band: float32 arithmetic of writer and reader, computed)
+//   * voxel values: bit-exact for FLOAT output (and DOUBLE output without rescaling); for scaled integer output the value read
+//     back is within half a quantisation step (the step the header declares) of the original;
+//     unsigned output: negatives -> 0 (documented truncation); no overflow: order and sign of the stored integers preserved
 //   * exam info fields the format stores
 //   * a data file shorter than announced must be rejected (exception or null), at every length.
 // The binary data file and the header text are also decoded here independently of STIR's reader so that a writer
@@ -53,7 +52,7 @@ struct EndCase
 
 static const double U32 = 5.9604644775390625e-08; // 2^-24: unit round-off of float32
 static const double DENORM = 1.5e-45;             // one float32 denormal quantum
-static const double HDR_REL = 5.5e-6;             // 6 significant decimal digits: relative error <= 5e-6 (+ float conversions)
+static const double FLT_REL = 1.1920928955078125e-07; // 2^-23: a float32 quantity that went through text must come back within 1 ulp
 
 // ---------------------------------------------------------------------------------------------- number types
 struct TypeInfo
@@ -627,7 +626,7 @@ check_geometry(Ctx& ctx, const Image& o, const Image& r, const Tag& tag)
       const double vs = o.get_grid_spacing()[a + 1], org = o.get_origin()[a + 1];
       const double fpo = org + vs * omin[a + 1];
       const double A = std::fabs(vs * omin[a + 1]) + std::fabs(org) + 3 * std::fabs(fpo) + 4 * vs * n;
-      band[a] = 1e-5 * (std::fabs(fpo) + vs * (n - 1)) + std::ldexp(A, -22);
+      band[a] = std::ldexp(A, -22);
       for (int d = 0; d < n; ++d)
         p0[a].push_back(org + vs * (omin[a + 1] + d));
     }
@@ -657,11 +656,13 @@ check_geometry(Ctx& ctx, const Image& o, const Image& r, const Tag& tag)
 }
 
 // values of one image / frame.  v: written, r: read back by STIR, st: stored numbers decoded by the harness (may be empty),
-// S: scale the writer uses (library's find_scale_factor), s_hdr: scale in the header text
+// s_hdr: scale in the header text = the quantisation step the file declares (applied by the reader as a float);
+// S_lib: what the library's find_scale_factor() returns for these data (only used to say *why* a value is off)
 static void
 check_values(Ctx& ctx, std::set<std::string>& seen, const TypeInfo& t, const std::vector<float>& v, const std::vector<float>& r,
-             const std::vector<double>& st, const float S, const double s_hdr, const Tag& tag)
+             const std::vector<double>& st, const float S_lib, const double s_hdr, const Tag& tag)
 {
+  (void)seen;
   const size_t N = v.size();
   if (r.size() != N)
     strict(ctx, "voxel-count-changed", fmt("%zu written, %zu read ", N, r.size()) + tag.str());
@@ -669,25 +670,28 @@ check_values(Ctx& ctx, std::set<std::string>& seen, const TypeInfo& t, const std
   const std::string T = t.name;
   ctx.count("voxels_compared", static_cast<long>(N));
   ctx.count(std::string("voxels_") + T, static_cast<long>(N));
+  const float S = static_cast<float>(s_hdr);
+  const double Sd = S;
+  // classification of a value violation: the header does not carry the scale the writer's find_scale_factor() gives
+  const std::string why_scale = S == S_lib ? "" : "header-scale-differs-from-scale-used:";
+  const std::string scales = fmt("(header scale %.17g, find_scale_factor gives %.9g) ", s_hdr, static_cast<double>(S_lib));
+  if (S == S_lib)
+    ctx.count("header_scale_bit_exact", 1);
+  else
+    ctx.count("header_scale_not_bit_exact", 1);
 
   if (t.id == NumericType::FLOAT)
     {
+      // exact
       for (size_t k = 0; k < N; ++k)
-        {
-          if (have_st && !(st[k] == static_cast<double>(v[k])))
-            strict(ctx, "float-output-stored-value-not-exact:FLOAT",
-                   fmt("voxel %zu: value %.9g stored as %.17g ", k, static_cast<double>(v[k]), st[k]) + tag.str());
-          if (!(r[k] == v[k]))
-            strict(ctx, "float-output-value-not-exact:FLOAT",
-                   fmt("voxel %zu: written %.9g read back %.9g ", k, static_cast<double>(v[k]), static_cast<double>(r[k])) + tag.str());
-        }
-      if (s_hdr != 1.)
-        strict(ctx, "float-output-header-scale-not-1", fmt("header scale %.17g ", s_hdr) + tag.str());
+        if (!(r[k] == v[k]))
+          strict(ctx, "float-output-value-not-exact:FLOAT",
+                 fmt("voxel %zu: written %.9g read back %.9g (stored as %.17g) ", k, static_cast<double>(v[k]), static_cast<double>(r[k]),
+                     have_st ? st[k] : 0.)
+                     + scales + tag.str());
       return;
     }
 
-  const double Sd = S;
-  const float s6f = static_cast<float>(s_hdr);
   bool any_nonzero = false, any_positive = false;
   for (float x : v)
     {
@@ -695,7 +699,8 @@ check_values(Ctx& ctx, std::set<std::string>& seen, const TypeInfo& t, const std
       any_positive |= x > 0;
     }
 
-  // --- scale factor 0: legitimate only when there is nothing to represent
+  // --- scale factor 0: legitimate only when there is nothing to represent (all zero; unsigned output: nothing positive,
+  //     negatives -> 0 is the documented truncation)
   if (S == 0.f)
     {
       const bool fine = !any_nonzero || (t.is_int && !t.is_signed && !any_positive);
@@ -705,67 +710,39 @@ check_values(Ctx& ctx, std::set<std::string>& seen, const TypeInfo& t, const std
           for (size_t k = 0; k < N; ++k)
             if (std::fabs(v[k]) > std::fabs(v[kk]))
               kk = k;
-          defect(ctx, seen, "scale-factor-zero-for-nonzero-data:" + T,
-                 fmt("find_scale_factor returns 0 for data with max |value| %.9g (voxel %zu, read back as %.9g): all voxels are written as 0 ",
+          strict(ctx, "scale-factor-zero-for-nonzero-data:" + T,
+                 fmt("the header carries scale factor 0 for data with max |value| %.9g (voxel %zu, read back as %.9g) ",
                      static_cast<double>(v[kk]), kk, static_cast<double>(r[kk]))
-                     + tag.str());
-          return;
+                     + scales + tag.str());
         }
       for (size_t k = 0; k < N; ++k)
-        if ((have_st && st[k] != 0) || r[k] != 0)
+        if (r[k] != 0)
           strict(ctx, "zero-image-not-preserved:" + T,
                  fmt("voxel %zu: stored %.17g read %.9g ", k, have_st ? st[k] : 0., static_cast<double>(r[k])) + tag.str());
+      ctx.count("scale_zero_images", 1);
       return;
     }
 
-  // --- header scale vs scale used (the header carries 6 significant digits: recorded assumption)
-  if (!(std::fabs(static_cast<double>(s6f) - Sd) <= HDR_REL * std::fabs(Sd) + DENORM))
-    strict(ctx, "header-scale-factor-differs-from-scale-used:" + T,
-           fmt("writer's scale %.9g, header says %.17g ", Sd, s_hdr) + tag.str());
-  if (static_cast<double>(s6f) != Sd)
-    ctx.count("header_scale_not_bit_exact", 1);
-  else
-    ctx.count("header_scale_bit_exact", 1);
-
   if (t.id == NumericType::DOUBLE)
     {
-      size_t worst = N;
-      double worst_excess = 0;
+      ctx.count(S == 1.f ? "double_output_unscaled" : "double_output_scaled", 1);
       for (size_t k = 0; k < N; ++k)
         {
-          const double q = static_cast<double>(v[k]) / Sd;
-          if (have_st && !(std::fabs(st[k] - q) <= 4 * U32 * std::fabs(q) + DENORM))
-            strict(ctx, "float-output-stored-value-wrong:DOUBLE",
-                   fmt("voxel %zu: value %.9g / scale %.9g = %.17g stored as %.17g ", k, static_cast<double>(v[k]), Sd, q, st[k]) + tag.str());
           const double e = std::fabs(static_cast<double>(r[k]) - v[k]);
-          // float32 arithmetic of the writer (value / scale, may underflow) and reader (stored * scale); exact when the scale is 1
+          // exact when the scale is 1; else the float32 arithmetic of the writer (value / scale, may underflow) and reader (stored * scale)
           const double allowed = S == 1.f ? 0. : 4 * U32 * std::fabs(v[k]) + DENORM * (1 + std::fabs(Sd));
-          if (e > allowed + HDR_REL * std::fabs(v[k]))
-            strict(ctx, "float-output-value-not-exact:DOUBLE",
-                   fmt("voxel %zu: written %.9g read back %.9g (scale %.9g, header %.17g) ", k, static_cast<double>(v[k]),
-                       static_cast<double>(r[k]), Sd, s_hdr)
-                       + tag.str());
-          if (e > allowed && e - allowed > worst_excess)
-            {
-              worst_excess = e - allowed;
-              worst = k;
-            }
+          if (!(e <= allowed))
+            strict(ctx, "float-output-value-not-exact:" + why_scale + "DOUBLE",
+                   fmt("voxel %zu: written %.9g, stored %.17g, read back %.9g: |diff| %.3g exceeds %.3g ", k, static_cast<double>(v[k]),
+                       have_st ? st[k] : 0., static_cast<double>(r[k]), e, allowed)
+                       + scales + tag.str());
         }
-      if (worst < N)
-        defect(ctx, seen, "float-output-value-not-exact:header-scale-precision:DOUBLE",
-               fmt("voxel %zu: written %.9g, stored %.17g, read back %.9g: |diff| %.3g exceeds float32 round-off %.3g; scale used %.9g but header "
-                   "carries %.17g ",
-                   worst, static_cast<double>(v[worst]), have_st ? st[worst] : 0., static_cast<double>(r[worst]),
-                   std::fabs(static_cast<double>(r[worst]) - v[worst]), 4 * U32 * std::fabs(v[worst]), Sd, s_hdr)
-                   + tag.str());
       return;
     }
 
   // --- scaled integer output
   const double step = std::fabs(Sd);
-  size_t worst = N;
-  double worst_ratio = 0;
-  long n_hdr_excess = 0, n_trunc = 0;
+  long n_trunc = 0;
   double qmax = 0, qmin = 0;
   for (size_t k = 0; k < N; ++k)
     {
@@ -783,88 +760,58 @@ check_values(Ctx& ctx, std::set<std::string>& seen, const TypeInfo& t, const std
       const double q = static_cast<double>(v[k]) / Sd;
       qmax = std::max(qmax, q);
       qmin = std::min(qmin, q);
-      const double fb = std::ldexp(std::fabs(q), -22) + std::ldexp(1., -23); // float32 division + rounding addition
-      if (have_st)
-        {
-          // (i) the rounding step alone
-          const double d = std::fabs(st[k] - q);
-          if (!(d <= 0.5 + fb))
-            {
-              const std::string w = fmt("voxel %zu: value %.9g / scale %.9g = %.17g but stored integer is %.17g (|diff| %.6g steps; type range "
-                                        "[%.17g, %.17g]); read back as %.9g ",
-                                        k, static_cast<double>(v[k]), Sd, q, st[k], d, t.tmin, t.tmax, static_cast<double>(r[k]))
-                                    + tag.str();
-              if (t.wide && std::fabs(q) + 0.5 > 2147483647.)
-                {
-                  defect(ctx, seen, "scaled-int-stored-value-wrong:quotient-exceeds-int-range:" + T, w);
-                  return;
-                }
-              strict(ctx, "scaled-int-stored-value-beyond-half-step:" + T, w);
-            }
-          if (std::fabs(q) > 0.5 + fb && (st[k] < 0) != (q < 0) && st[k] != 0)
-            strict(ctx, "scaled-int-sign-not-preserved:" + T, fmt("voxel %zu: quotient %.17g stored %.17g ", k, q, st[k]) + tag.str());
-        }
-      // (ii) value read back
+      // float32 division + rounding addition of the writer: only matters where half a step is below float32 resolution (|q| > 2^22)
+      const double fb = std::ldexp(std::fabs(q), -22) + std::ldexp(1., -23);
+      // the value read back: within half a quantisation step (+ float32 round-off of the reader's product)
       const double e = std::fabs(static_cast<double>(r[k]) - v[k]);
       const double allowed = (0.5 + fb) * step + 4 * U32 * (std::fabs(v[k]) + step) + DENORM;
-      const double stored_mag = have_st ? std::fabs(st[k]) : std::fabs(q) + 0.5;
-      const double hdr_allow = HDR_REL * stored_mag * step + stored_mag * DENORM;
-      if (!(e <= allowed + hdr_allow))
-        strict(ctx, "scaled-int-value-beyond-half-step:" + T,
-               fmt("voxel %zu: written %.9g read back %.9g: |diff| %.6g = %.6g steps (step %.9g, header scale %.17g, stored %.17g) ", k,
-                   static_cast<double>(v[k]), static_cast<double>(r[k]), e, e / step, step, s_hdr, have_st ? st[k] : 0.)
-                   + tag.str());
-      if (e > allowed)
+      if (!(e <= allowed))
         {
-          ++n_hdr_excess;
-          if (e / step > worst_ratio)
-            {
-              worst_ratio = e / step;
-              worst = k;
-            }
+          std::string cls = why_scale;
+          if (cls.empty() && have_st && std::fabs(st[k] - q) > 0.5 + fb)
+            cls = (std::fabs(q) > t.tmax + 0.5 + fb || q < t.tmin - 0.5 - fb) ? "quotient-outside-type-range:" : "stored-integer-wrong:";
+          strict(ctx, "scaled-int-value-beyond-half-step:" + cls + T,
+                 fmt("voxel %zu: written %.9g read back %.9g: |diff| %.6g = %.6g steps (allowed %.6g steps); step %.9g, value/step = %.17g, stored "
+                     "integer %.17g, type range [%.17g, %.17g] ",
+                     k, static_cast<double>(v[k]), static_cast<double>(r[k]), e, e / step, allowed / step, step, q, have_st ? st[k] : 0., t.tmin,
+                     t.tmax)
+                     + scales + tag.str());
         }
     }
   ctx.count("unsigned_negatives_truncated", n_trunc);
-  ctx.count("voxels_within_half_step_" + T, static_cast<long>(N) - n_hdr_excess - n_trunc);
-  // quotient must fit the type (no overflow)
-  {
-    const double fbm = std::ldexp(std::max(std::fabs(qmax), std::fabs(qmin)), -22) + 1e-6;
-    if (qmax > t.tmax + 0.5 + fbm || qmin < t.tmin - 0.5 - fbm)
-      strict(ctx, "scale-factor-overflows-type:" + T,
-             fmt("quotients range [%.17g, %.17g] but type range is [%.17g, %.17g], scale %.9g ", qmin, qmax, t.tmin, t.tmax, Sd) + tag.str());
-  }
-  // order preserved
+  ctx.count("voxels_within_half_step_" + T, static_cast<long>(N) - n_trunc);
+  if (std::max(std::fabs(qmax), std::fabs(qmin)) > 2147483647.)
+    ctx.count("images_with_quotient_beyond_int_range", 1);
+  // no overflow of the chosen type: no stored number outside the type (trivially true for the decoded numbers) and no wrap-around,
+  // i.e. order and sign of the stored integers follow the values (any rounding of value/step is monotone)
   if (have_st)
     {
-      std::vector<size_t> ord(N);
+      std::vector<size_t> ord;
       for (size_t k = 0; k < N; ++k)
-        ord[k] = k;
+        if (t.is_signed || !(v[k] < 0))
+          ord.push_back(k);
       std::sort(ord.begin(), ord.end(), [&](size_t a, size_t b) { return Sd > 0 ? v[a] < v[b] : v[a] > v[b]; });
-      for (size_t j = 1; j < N; ++j)
-        if (st[ord[j]] < st[ord[j - 1]] && !(!t.is_signed && v[ord[j]] < 0) && !(!t.is_signed && v[ord[j - 1]] < 0))
-          strict(ctx, "scaled-int-order-not-preserved:" + T,
+      for (size_t j = 1; j < ord.size(); ++j)
+        if (st[ord[j]] < st[ord[j - 1]])
+          strict(ctx, "scaled-int-overflow:order-not-preserved:" + T,
                  fmt("values %.9g (voxel %zu) and %.9g (voxel %zu) stored as %.17g and %.17g ", static_cast<double>(v[ord[j - 1]]), ord[j - 1],
                      static_cast<double>(v[ord[j]]), ord[j], st[ord[j - 1]], st[ord[j]])
-                     + tag.str());
-    }
-  if (worst < N)
-    {
-      ctx.count("voxels_beyond_half_step_header_precision_" + T, n_hdr_excess);
-      defect(ctx, seen, "scaled-int-value-beyond-half-step:header-scale-precision:" + T,
-             fmt("voxel %zu: written %.9g, stored integer %.17g with scale %.9g (= %.9g, rounding error %.4g steps: fine), but read back %.9g: "
-                 "|diff| = %.5g quantisation steps > 0.5; the header carries the scale as %.17g (relative error %.3g); %ld of %zu voxels "
-                 "affected ",
-                 worst, static_cast<double>(v[worst]), have_st ? st[worst] : 0., Sd, have_st ? st[worst] * Sd : 0.,
-                 have_st ? std::fabs(st[worst] - v[worst] / Sd) : 0., static_cast<double>(r[worst]), worst_ratio, s_hdr,
-                 std::fabs(s_hdr - Sd) / step, n_hdr_excess, N)
-                 + tag.str());
+                     + scales + tag.str());
+      for (size_t k : ord)
+        {
+          const double q = static_cast<double>(v[k]) / Sd;
+          if (std::fabs(q) > 1. && st[k] != 0 && (st[k] < 0) != (q < 0))
+            strict(ctx, "scaled-int-overflow:sign-not-preserved:" + T,
+                   fmt("voxel %zu: value/step %.17g stored %.17g ", k, q, st[k]) + scales + tag.str());
+        }
     }
 }
 
+// a float32 exam-info number after the round trip
 static bool
 close6(double w, double r)
 {
-  return std::fabs(w - r) <= HDR_REL * std::fabs(w) + 1e-30;
+  return std::fabs(w - r) <= FLT_REL * std::fabs(w) + 1e-30;
 }
 // exam info: the fields the format stores.  frames: expected (start,duration) list; empty => time frames not compared
 static void
@@ -906,8 +853,9 @@ check_exam_info(Ctx& ctx, const ExamInfo& w, const ExamInfo& r, const std::vecto
         {
           const double ws = frames[f - 1].first, wd = frames[f - 1].second;
           const double rs = tf.get_start_time(f), rd = tf.get_end_time(f) - tf.get_start_time(f);
+          // times are doubles; the reader stores (start, start + duration): the duration comes back through a cancellation
           const double cancel = 8 * 2.3e-16 * (std::fabs(rs) + std::fabs(rd));
-          if (!close6(ws, rs) || !(std::fabs(wd - rd) <= HDR_REL * wd + cancel))
+          if (!(std::fabs(ws - rs) <= 2.3e-16 * std::fabs(ws)) || !(std::fabs(wd - rd) <= cancel))
             strict(ctx, "exam-info:time-frame",
                    fmt("frame %u: written start %.12g duration %.12g, read start %.12g duration %.12g ", f, ws, wd, rs, rd) + tag.str());
           nf += 2;
@@ -1504,8 +1452,8 @@ case_dynamic(Ctx& ctx, bool multi)
       ft.part = f;
       std::vector<std::pair<double, double>> one{ { tdefs.get_start_time(f), tdefs.get_duration(f) } };
       const TimeFrameDefinitions& rtf = rim->get_exam_info().get_time_frame_definitions();
-      if (rtf.get_num_time_frames() != 1 || !close6(one[0].first, rtf.get_start_time(1))
-          || !(std::fabs(one[0].second - rtf.get_duration(1)) <= HDR_REL * one[0].second + 1e-9 * (1 + std::fabs(rtf.get_start_time(1)))))
+      if (rtf.get_num_time_frames() != 1 || !(std::fabs(one[0].first - rtf.get_start_time(1)) <= 2.3e-16 * std::fabs(one[0].first))
+          || !(std::fabs(one[0].second - rtf.get_duration(1)) <= 8 * 2.3e-16 * (std::fabs(rtf.get_start_time(1)) + rtf.get_duration(1))))
         strict(ctx, "dynamic:frame-time-of-density",
                fmt("frame %d: written start %.12g duration %.12g; density read back has %u frames, start %.12g duration %.12g ", f, one[0].first,
                    one[0].second, rtf.get_num_time_frames(), rtf.get_num_time_frames() ? rtf.get_start_time(1) : 0.,
